@@ -1,4 +1,5 @@
 import PallasVerif.Model.Kes
+import PallasVerif.Model.KesBytes
 import PallasVerif.Props.C10
 import PallasVerif.Gen.KesConsts
 /-!
@@ -29,12 +30,20 @@ bound at 7 — for every seed, period and message:
   `Gen/KesConsts.lean`) are the model's; `keyBytes_length` / `skBytes_length` — the model's key buffer has
   `32 + 96·d (+ 4)` bytes at every period.
 
+* `keygenSliceSome_refines`, `keygenSliceNone_refines`, `updateSlice_refines`, `skKeygenBytes_refines`,
+  `skUpdateBytes_refines`, `evolveBytes_keygen`, `signFromSlice_refines`, `csignFromSlice_refines` — the
+  second, slice-level transcription (`Model/KesBytes.lean`: in-place writes at byte offsets, sub-slices,
+  the zeroing done by `split_slice`, the big-endian period) computes, on the layout `keyBytes`, exactly
+  the tree operations — so `keygen` followed by `t` `update`s leaves `skBytes (keyAt d seed t)` in the
+  buffer, for every depth.
+
 Not proved: the hypotheses for the concrete BLAKE2b/Ed25519 instance (they are cryptographic
-assumptions), and that the byte layout `keyBytes` is what the Rust slices hold — the latter is
-checked on every run by comparing the real key buffer with `skBytes` after every update.
+assumptions). That the slice-level transcription is what the Rust does is checked on every run by
+comparing the real key buffer with it after `keygen` and after every `update`.
 -/
 namespace PallasVerif.Props.C12
 open PallasVerif.Kes
+open PallasVerif.Blake2b (blake2b256 blit)
 
 variable (P : Prims)
 
@@ -473,6 +482,337 @@ theorem keyBytes_length (d : Nat) (s : Bytes) (t : Nat) (hs : s.length = 32) :
 theorem skBytes_length (d : Nat) (s : Bytes) (t : Nat) (hs : s.length = 32) :
     (skBytes { depth := d, key := keyAt conc d s t, period := t }).length = keySize d + 4 := by
   simp [skBytes, keyBytes_length d s t hs, be32]
+
+/-! ## the byte-slice transcription refines the tree model -/
+
+theorem blit_eq (dst : Bytes) (pos : Nat) (src : Bytes) :
+    blit dst pos src = dst.take pos ++ src ++ dst.drop (pos + src.length) := rfl
+
+theorem keygen_bytes_length (d : Nat) (s : Bytes) (hs : s.length = 32) :
+    (keyBytes (keygen conc d s).1).length = keySize d := by
+  rw [← keyAt_zero]; exact keyBytes_length d s 0 hs
+
+theorem b256_len (x : Bytes) : (blake2b256 x).length = 32 := PallasVerif.Props.C10.blake2b_length 32 _ (by decide)
+
+theorem keygen_pk_len (d : Nat) (s : Bytes) : (keygen conc d s).2.length = 32 := conc_pk_length d s
+
+/-- the four in-place writes of `keygen_slice` produce `child ‖ r1 ‖ pk0 ‖ pk1` whatever was in the slice -/
+theorem keygenBody_spec (rec : Bytes → Bytes → Bytes × Bytes) (k : Nat) (sl r0 r1 : Bytes) (extra : Nat)
+    (hsl : sl.length = k + 96 + extra) (hr1 : r1.length = 32)
+    (hc : ((rec (sl.take k) r0).1).length = k) (hp0 : ((rec (sl.take k) r0).2).length = 32)
+    (hp1 : ((rec (List.replicate k 0) r1).2).length = 32) :
+    keygenBody rec k sl r0 r1 =
+      ((rec (sl.take k) r0).1 ++ r1 ++ (rec (sl.take k) r0).2 ++ (rec (List.replicate k 0) r1).2 ++ sl.drop (k + 96),
+       blake2b256 ((rec (sl.take k) r0).2 ++ (rec (List.replicate k 0) r1).2)) := by
+  have htk : (sl.take k).length = k := by simp; omega
+  have e1 : (blit sl k r1).take k = sl.take k := by
+    rw [blit_eq, List.append_assoc, List.take_append_of_le_length (by omega), List.take_of_length_le (by omega)]
+  unfold keygenBody
+  simp only [e1]
+  generalize rec (sl.take k) r0 = c at hc hp0 ⊢
+  generalize (rec (List.replicate k 0) r1).2 = pk1 at hp1 ⊢
+  obtain ⟨cb, pk0⟩ := c
+  simp only at hc hp0 ⊢
+  congr 1
+  -- sl1 = take k sl ++ r1 ++ drop (k+32) sl
+  have s1 : blit sl k r1 = sl.take k ++ (r1 ++ sl.drop (k + 32)) := by rw [blit_eq, hr1, List.append_assoc]
+  have s2 : blit (blit sl k r1) 0 cb = cb ++ (r1 ++ sl.drop (k + 32)) := by
+    rw [blit_eq, s1, List.take_zero, List.nil_append, Nat.zero_add, hc, List.drop_append_of_le_length (by omega),
+      List.drop_of_length_le (by omega), List.nil_append]
+  have s3 : blit (blit (blit sl k r1) 0 cb) (k + 32) pk0 = cb ++ r1 ++ pk0 ++ sl.drop (k + 64) := by
+    rw [blit_eq, s2, hp0]
+    have t1 : (cb ++ (r1 ++ sl.drop (k + 32))).take (k + 32) = cb ++ r1 := by
+      rw [← List.append_assoc, List.take_append_of_le_length (by simp; omega), List.take_of_length_le (by simp; omega)]
+    have t2 : (cb ++ (r1 ++ sl.drop (k + 32))).drop (k + 32 + 32) = sl.drop (k + 64) := by
+      rw [← List.append_assoc, List.drop_append, List.drop_of_length_le (by simp; omega), List.nil_append, List.drop_drop]
+      congr 1; simp; omega
+    rw [t1, t2]
+  rw [s3, blit_eq, hp1]
+  have t1 : (cb ++ r1 ++ pk0 ++ sl.drop (k + 64)).take (k + 64) = cb ++ r1 ++ pk0 := by
+    rw [List.take_append_of_le_length (by simp; omega), List.take_of_length_le (by simp; omega)]
+  have t2 : (cb ++ r1 ++ pk0 ++ sl.drop (k + 64)).drop (k + 64 + 32) = sl.drop (k + 96) := by
+    rw [List.drop_append, List.drop_of_length_le (by simp; omega), List.nil_append, List.drop_drop]
+    congr 1; simp; omega
+  rw [t1, t2]
+
+
+/-- `keygen_slice(.., Some(seed))` writes exactly the layout of the tree `keygen` builds, whatever the slice held -/
+theorem keygenSliceSome_refines (d : Nat) (sl seed : Bytes) (hsl : sl.length = keySize d) (hs : seed.length = 32) :
+    keygenSliceSome d sl seed = (keyBytes (keygen conc d seed).1, (keygen conc d seed).2) := by
+  induction d generalizing sl seed with
+  | zero =>
+    simp only [keygenSliceSome, keygen, keyBytes, blit_eq, List.take_zero, List.nil_append, Nat.zero_add]
+    have : sl.drop seed.length = [] := List.drop_of_length_le (by simp [keySize] at hsl; omega)
+    rw [this, List.append_nil]
+  | succ d ih =>
+    have hk : keySize (d + 1) = keySize d + 96 := by simp [keySize]; omega
+    have h1 := b256_len (1 :: seed)
+    have h2 := b256_len (2 :: seed)
+    have htk : (sl.take (keySize d)).length = keySize d := by simp; omega
+    have i0 := ih (sl.take (keySize d)) (blake2b256 (1 :: seed)) htk h1
+    have i1 := ih (List.replicate (keySize d) 0) (blake2b256 (2 :: seed)) (by simp) h2
+    simp only [keygenSliceSome]
+    rw [keygenBody_spec _ _ _ _ _ 0 (by omega) h2 (by rw [i0]; exact keygen_bytes_length d _ h1)
+      (by rw [i0]; exact keygen_pk_len d _) (by rw [i1]; exact keygen_pk_len d _)]
+    rw [i0, i1]
+    have : sl.drop (keySize d + 96) = [] := List.drop_of_length_le (by omega)
+    simp [this, keygen, keyBytes]
+
+/-- `keygen_slice(.., None)`: the same from the seed stored in the last 32 bytes, which end up zero -/
+theorem keygenSliceNone_refines (d : Nat) (sl : Bytes) (hsl : sl.length = keySize d + 32) :
+    keygenSliceNone d sl =
+      (keyBytes (keygen conc d (sl.drop (keySize d))).1 ++ zeros32, (keygen conc d (sl.drop (keySize d))).2) := by
+  have hseed : (sl.drop (keySize d)).length = 32 := by simp; omega
+  cases d with
+  | zero =>
+    simp only [keygenSliceNone, keygen, keyBytes, keySize, Nat.mul_zero, Nat.add_zero] at hseed ⊢
+    simp only [keySize, Nat.mul_zero, Nat.add_zero] at hsl
+    have z : zeros32.length = 32 := by simp [zeros32]
+    congr 1
+    have b1 : blit sl 32 zeros32 = sl.take 32 ++ zeros32 := by
+      rw [blit_eq, z, List.drop_of_length_le (by omega), List.append_nil]
+    have e5 : (sl.take 32).drop 32 = [] := List.drop_of_length_le (by rw [List.length_take]; omega)
+    rw [b1, blit_eq, List.take_zero, List.nil_append, Nat.zero_add, hseed,
+      List.drop_append_of_le_length (by rw [List.length_take]; omega), e5, List.nil_append]
+  | succ d =>
+    have hk : keySize (d + 1) = keySize d + 96 := by simp [keySize]; omega
+    generalize hsd : sl.drop (keySize (d + 1)) = seed at hseed ⊢
+    have h1 := b256_len (1 :: seed)
+    have h2 := b256_len (2 :: seed)
+    have z : zeros32.length = 32 := by simp [zeros32]
+    have e0 : blit sl (keySize (d + 1)) zeros32 = sl.take (keySize (d + 1)) ++ zeros32 := by
+      rw [blit_eq, z, List.drop_of_length_le (by omega), List.append_nil]
+    have hl0 : (sl.take (keySize (d + 1)) ++ zeros32).length = keySize d + 96 + 32 := by simp [z]; omega
+    have htk : ((sl.take (keySize (d + 1)) ++ zeros32).take (keySize d)).length = keySize d := by
+      rw [List.length_take, hl0]; omega
+    have i0 := keygenSliceSome_refines d _ (blake2b256 (1 :: seed)) htk h1
+    have i1 := keygenSliceSome_refines d (List.replicate (keySize d) 0) (blake2b256 (2 :: seed)) (by simp) h2
+    simp only [keygenSliceNone, hsd, e0]
+    rw [keygenBody_spec _ _ _ _ _ 32 hl0 h2 (by rw [i0]; exact keygen_bytes_length d _ h1)
+      (by rw [i0]; exact keygen_pk_len d _) (by rw [i1]; exact keygen_pk_len d _)]
+    rw [i0, i1]
+    have e3 : (sl.take (keySize (d + 1)) ++ zeros32).drop (keySize d + 96) = zeros32 := by
+      rw [← hk, List.drop_append_of_le_length (by simp; omega), List.drop_of_length_le (by simp; omega), List.nil_append]
+    simp [e3, keygen, keyBytes]
+
+/-- a key tree whose seeds and public keys have their 32 bytes -/
+def KeyShape : Nat → Key conc → Prop
+  | 0, .leaf s => s.length = 32
+  | d + 1, .node a sr pk0 pk1 => KeyShape d a ∧ (∀ s, sr = some s → s.length = 32) ∧ pk0.length = 32 ∧ pk1.length = 32
+  | _, _ => False
+
+theorem keyShape_keygen (d : Nat) (s : Bytes) (hs : s.length = 32) : KeyShape d (keygen conc d s).1 := by
+  induction d generalizing s with
+  | zero => exact hs
+  | succ d ih =>
+    refine ⟨ih _ (b256_len _), ?_, keygen_pk_len d _, keygen_pk_len d _⟩
+    intro x hx; cases hx; exact b256_len _
+
+theorem keyShape_length (d : Nat) (k : Key conc) (h : KeyShape d k) : (keyBytes k).length = keySize d := by
+  induction d generalizing k with
+  | zero => cases k with
+    | leaf s => simpa [KeyShape, keyBytes, keySize] using h
+    | node _ _ _ _ => simp [KeyShape] at h
+  | succ d ih => cases k with
+    | leaf s => simp [KeyShape] at h
+    | node a sr pk0 pk1 =>
+      obtain ⟨h1, h2, h3, h4⟩ := h
+      have hs : (sr.getD (List.replicate 32 0)).length = 32 := by
+        cases sr with
+        | none => simp
+        | some x => exact h2 x rfl
+      simp only [keyBytes]
+      generalize sr.getD (List.replicate 32 0) = S at hs
+      simp [ih a h1, hs, h3, h4, keySize]; omega
+
+theorem keyShape_update (d : Nat) (k k' : Key conc) (t : Nat) (h : KeyShape d k) (hu : update conc d k t = some k') :
+    KeyShape d k' := by
+  induction d generalizing k k' t with
+  | zero => simp [update] at hu
+  | succ d ih => cases k with
+    | leaf s => simp [KeyShape] at h
+    | node a sr pk0 pk1 =>
+      obtain ⟨h1, h2, h3, h4⟩ := h
+      simp only [update] at hu
+      split at hu
+      · simp at hu
+      · split at hu
+        · simp only [Option.map_eq_some_iff] at hu
+          obtain ⟨a', ha, rfl⟩ := hu
+          exact ⟨ih a a' t h1 ha, h2, h3, h4⟩
+        · split at hu
+          · simp only [Option.some.injEq] at hu; subst hu
+            refine ⟨keyShape_keygen d _ ?_, by simp, h3, h4⟩
+            cases sr with
+            | none => simp
+            | some x => exact h2 x rfl
+          · simp only [Option.map_eq_some_iff] at hu
+            obtain ⟨a', ha, rfl⟩ := hu
+            exact ⟨ih a a' _ h1 ha, h2, h3, h4⟩
+
+/-- **`update_slice` on the bytes of a key is `update` on the tree** (the three `Ordering` branches with their
+    slice offsets), for every depth -/
+theorem updateSlice_refines (d : Nat) (k : Key conc) (t : Nat) (h : KeyShape d k) :
+    updateSlice d (keyBytes k) t = (update conc d k t).map keyBytes := by
+  induction d generalizing k t with
+  | zero => simp [updateSlice, update]
+  | succ d ih => cases k with
+    | leaf s => simp [KeyShape] at h
+    | node a sr pk0 pk1 =>
+      obtain ⟨h1, h2, h3, h4⟩ := h
+      have hA := keyShape_length d a h1
+      have hS : (sr.getD (List.replicate 32 0)).length = 32 := by
+        cases sr with
+        | none => simp
+        | some x => exact h2 x rfl
+      generalize hSv : sr.getD (List.replicate 32 0) = S at hS
+      have etake : (keyBytes (.node a sr pk0 pk1)).take (keySize d) = keyBytes a := by
+        simp only [keyBytes, hSv, List.append_assoc]
+        rw [List.take_append_of_le_length (by omega), List.take_of_length_le (by omega)]
+      have hblit : ∀ x : Bytes, x.length = keySize d →
+          blit (keyBytes (.node a sr pk0 pk1)) 0 x = x ++ S ++ pk0 ++ pk1 := by
+        intro x hx
+        simp only [blit_eq, keyBytes, hSv, List.take_zero, List.nil_append, Nat.zero_add, hx, List.append_assoc]
+        rw [List.drop_append_of_le_length (by omega), List.drop_of_length_le (by omega), List.nil_append]
+      simp only [updateSlice, update]
+      split
+      · rfl
+      · split
+        · rw [etake, ih a t h1]
+          cases hu : update conc d a t with
+          | none => rfl
+          | some a' =>
+            have := keyShape_length d a' (keyShape_update d a a' t h1 hu)
+            show some (blit _ 0 (keyBytes a')) = some (keyBytes (.node a' sr pk0 pk1))
+            rw [hblit _ this]; simp only [keyBytes, hSv]
+        · split
+          · have e2 : (keyBytes (.node a sr pk0 pk1)).take (keySize d + 32) = keyBytes a ++ S := by
+              simp only [keyBytes, hSv]
+              rw [List.append_assoc (keyBytes a ++ S), List.take_append_of_le_length (by simp; omega), List.take_of_length_le (by simp; omega)]
+            rw [e2, keygenSliceNone_refines d _ (by simp; omega)]
+            have e3 : (keyBytes a ++ S).drop (keySize d) = S := by
+              rw [List.drop_append_of_le_length (by omega), List.drop_of_length_le (by omega), List.nil_append]
+            simp only [e3, Option.map_some, Option.some.injEq]
+            rw [hSv]
+            have hn := keygen_bytes_length d S hS
+            have hz : zeros32.length = 32 := by simp [zeros32]
+            rw [blit_eq, List.take_zero, List.nil_append, Nat.zero_add]
+            simp only [keyBytes, hSv, Option.getD_none, List.length_append, hn, hz]
+            have e4 : (keyBytes a ++ S ++ pk0 ++ pk1).drop (keySize d + 32) = pk0 ++ pk1 := by
+              rw [List.append_assoc (keyBytes a ++ S), List.drop_append_of_le_length (by simp; omega),
+                List.drop_of_length_le (by simp; omega), List.nil_append]
+            rw [e4]; simp [zeros32]
+          · rw [etake, ih a _ h1]
+            cases hu : update conc d a (t - 2 ^ d) with
+            | none => rfl
+            | some a' =>
+              have := keyShape_length d a' (keyShape_update d a a' _ h1 hu)
+              show some (blit _ 0 (keyBytes a')) = some (keyBytes (.node a' sr pk0 pk1))
+              rw [hblit _ this]; simp only [keyBytes, hSv]
+
+theorem beNat32_be32 (n : Nat) (h : n < 2 ^ 32) : beNat32 (be32 n) = n := by
+  simp only [beNat32, be32, List.take, List.foldl, UInt8.toNat_ofNat']
+  omega
+
+theorem keyShape_keyAt (d : Nat) (s : Bytes) (t : Nat) (hs : s.length = 32) : KeyShape d (keyAt conc d s t) := by
+  induction d generalizing s t with
+  | zero => exact hs
+  | succ d ih =>
+    by_cases h : t < 2 ^ d
+    · simp only [keyAt, h, ↓reduceIte]
+      refine ⟨ih _ _ (b256_len _), ?_, conc_pk_length d _, conc_pk_length d _⟩
+      intro x hx; cases hx; exact b256_len _
+    · simp only [keyAt, h, ↓reduceIte]
+      exact ⟨ih _ _ (b256_len _), by simp, conc_pk_length d _, conc_pk_length d _⟩
+
+/-- `KesSk::keygen` on bytes = layout of the model's key, whatever the buffer held before -/
+theorem skKeygenBytes_refines (d : Nat) (buf seed : Bytes) (hb : buf.length = keySize d + 4) (hs : seed.length = 32) :
+    skKeygenBytes d buf seed = (skBytes (skKeygen conc d seed).1, (skKeygen conc d seed).2) := by
+  simp only [skKeygenBytes, skKeygen, skBytes]
+  rw [keygenSliceSome_refines d _ seed (by simp; omega) hs]
+
+/-- `KesSk::update` on bytes = `skUpdate` on the model's key -/
+theorem skUpdateBytes_refines (k : SK conc) (h : KeyShape k.depth k.key) (hp : k.period < 2 ^ 32) :
+    skUpdateBytes k.depth (skBytes k) = (skUpdate conc k).map skBytes := by
+  have hl := keyShape_length _ _ h
+  have hbe : (be32 k.period).length = 4 := by simp [be32]
+  have e1 : (skBytes k).take (keySize k.depth) = keyBytes k.key := by
+    simp only [skBytes]; rw [List.take_append_of_le_length (by omega), List.take_of_length_le (by omega)]
+  have e2 : (skBytes k).drop (keySize k.depth) = be32 k.period := by
+    simp only [skBytes]; rw [List.drop_append_of_le_length (by omega), List.drop_of_length_le (by omega), List.nil_append]
+  simp only [skUpdateBytes, e1, e2, beNat32_be32 _ hp, updateSlice_refines _ _ _ h, skUpdate, Option.map_map]
+  rfl
+
+/-- **the byte-level transcription of `keygen` followed by `t < 2^d` `update`s leaves exactly the layout of
+    `keyAt d seed t` and the period `t` in the buffer** -/
+theorem evolveBytes_keygen (d : Nat) (buf seed : Bytes) (t : Nat) (hb : buf.length = keySize d + 4)
+    (hs : seed.length = 32) (ht : t < 2 ^ d) (h32 : t < 2 ^ 32) :
+    evolveBytes d (skKeygenBytes d buf seed).1 t =
+      some (skBytes { depth := d, key := keyAt conc d seed t, period := t }) := by
+  induction t with
+  | zero =>
+    simp only [evolveBytes, skKeygenBytes_refines d buf seed hb hs, skKeygen, keyAt_zero]
+  | succ t ih =>
+    simp only [evolveBytes, ih (by omega) (by omega), Option.bind_some]
+    have := skUpdateBytes_refines { depth := d, key := keyAt conc d seed t, period := t }
+      (keyShape_keyAt d seed t hs) (by show t < 2 ^ 32; omega)
+    rw [this]
+    simp only [skUpdate, update_keyAt conc d seed t ht, Option.map_some]
+
+theorem node_slices (d : Nat) (a : Key conc) (sr : Option Bytes) (pk0 pk1 : Bytes) (h : KeyShape (d + 1) (.node a sr pk0 pk1)) :
+    (keyBytes (.node a sr pk0 pk1)).take (keySize d) = keyBytes a ∧
+    ((keyBytes (.node a sr pk0 pk1)).drop (keySize d + 32)).take 32 = pk0 ∧
+    ((keyBytes (.node a sr pk0 pk1)).drop (keySize d + 64)).take 32 = pk1 := by
+  obtain ⟨h1, h2, h3, h4⟩ := h
+  have hA := keyShape_length d a h1
+  have hS : (sr.getD (List.replicate 32 0)).length = 32 := by
+    cases sr with
+    | none => simp
+    | some x => exact h2 x rfl
+  simp only [keyBytes]
+  generalize sr.getD (List.replicate 32 0) = S at hS
+  refine ⟨?_, ?_, ?_⟩
+  · rw [List.append_assoc, List.append_assoc, List.take_append_of_le_length (by omega), List.take_of_length_le (by omega)]
+  · rw [List.append_assoc (keyBytes a ++ S), List.drop_append_of_le_length (by simp; omega),
+      List.drop_of_length_le (by simp; omega), List.nil_append, List.take_append_of_le_length (by omega),
+      List.take_of_length_le (by omega)]
+  · rw [List.drop_append_of_le_length (by simp; omega), List.drop_of_length_le (by simp; omega), List.nil_append,
+      List.take_of_length_le (by omega)]
+
+/-- sum signing on the key bytes produces the bytes of the model's signature -/
+theorem signFromSlice_refines (d : Nat) (k : Key conc) (m : Bytes) (h : KeyShape d k) :
+    signFromSlice d (keyBytes k) m = sumSigBytes (sign conc k m) := by
+  induction d generalizing k with
+  | zero => cases k with
+    | leaf s => rfl
+    | node _ _ _ _ => simp [KeyShape] at h
+  | succ d ih => cases k with
+    | leaf s => simp [KeyShape] at h
+    | node a sr pk0 pk1 =>
+      obtain ⟨e1, e2, e3⟩ := node_slices d a sr pk0 pk1 h
+      simp only [signFromSlice, e1, e2, e3, sign, sumSigBytes, ih a h.1]
+
+/-- compact signing on the key bytes produces the bytes of the model's signature -/
+theorem csignFromSlice_refines (d : Nat) (k : Key conc) (m : Bytes) (t : Nat) (h : KeyShape d k) :
+    (csign conc d k m t).map cSigBytes = some (csignFromSlice d (keyBytes k) m t) := by
+  induction d generalizing k t with
+  | zero => cases k with
+    | leaf s => rfl
+    | node _ _ _ _ => simp [KeyShape] at h
+  | succ d ih => cases k with
+    | leaf s => simp [KeyShape] at h
+    | node a sr pk0 pk1 =>
+      obtain ⟨e1, e2, e3⟩ := node_slices d a sr pk0 pk1 h
+      simp only [csignFromSlice, e1, e2, e3, csign]
+      split
+      · have := ih a t h.1
+        cases hc : csign conc d a m t with
+        | none => rw [hc] at this; simp at this
+        | some sg => rw [hc] at this; simp only [Option.map_some, Option.some.injEq] at this; simp [cSigBytes, this]
+      · have := ih a (t - 2 ^ d) h.1
+        cases hc : csign conc d a m (t - 2 ^ d) with
+        | none => rw [hc] at this; simp at this
+        | some sg => rw [hc] at this; simp only [Option.map_some, Option.some.injEq] at this; simp [cSigBytes, this]
 
 /-! ## non-vacuity examples (depth 2, symbolic) -/
 
